@@ -75,8 +75,8 @@ Definition mk_probe (r : row) (st : state) (o : obs bool) : probe :=
 Definition spec_answer (w : world) (d : sdomain) (p : probe) : option (obs bool) :=
   match find_action d (p_action p) with
   | Some a =>
-      if fdiv0 (spec_tt d) (w_objs w) (bind_args a (p_args p)) (p_state p) (a_pre a) then Some Raised
-      else Some (Returned (applicable (w_eps w) (spec_tt d) (w_objs w) a (p_args p) (p_state p)))
+      if fdiv0 (spec_tt d) (s_objs w d) (bind_args a (p_args p)) (p_state p) (a_pre a) then Some Raised
+      else Some (Returned (applicable (w_eps w) (spec_tt d) (s_objs w d) a (p_args p) (p_state p)))
   | None => None
   end.
 
